@@ -1004,6 +1004,21 @@ FP_GROUPS = {
 }
 
 
+# functions whose BODIES are translated to Lean by translate_fn.py and proved equal to the model (Proofs/AgreeFn*.lean):
+# they are tied semantically, so their source text is not fingerprinted (a semantics-preserving rewrite of one of them
+# keeps checking; a behavioural edit breaks the agreement theorem). (file, fn name): every `fn` item of that name in the file.
+TRANSLATED = {
+    ("tree/mod.rs", "eval_with_context"), ("tree/mod.rs", "eval_with_context_mut"), ("tree/mod.rs", "children"), ("tree/mod.rs", "operator"),
+    ("operator/mod.rs", "eval"), ("operator/mod.rs", "eval_mut"),
+    ("error/mod.rs", "expect_operator_argument_amount"), ("error/mod.rs", "expect_number_or_string"), ("error/mod.rs", "wrong_operator_argument_amount"),
+    ("value/mod.rs", "as_string"), ("value/mod.rs", "as_int"), ("value/mod.rs", "as_float"), ("value/mod.rs", "as_number"), ("value/mod.rs", "as_boolean"),
+    ("value/mod.rs", "as_tuple"), ("value/mod.rs", "as_fixed_len_tuple"), ("value/mod.rs", "as_empty"),
+    ("context/mod.rs", "get_value"), ("context/mod.rs", "call_function"), ("context/mod.rs", "are_builtin_functions_disabled"),
+    ("context/mod.rs", "set_builtin_functions_disabled"), ("context/mod.rs", "clear_variables"),  # (set_function: the trait default is not translated)
+    ("context/mod.rs", "clear_functions"), ("context/mod.rs", "clear"),
+}
+
+
 def all_fn_names(toks):
     names = []
     for i, t in enumerate(toks):
@@ -1030,6 +1045,8 @@ def fingerprints():
                     continue
                 _ = raw
                 for name in (names or all_fn_names(toks)):
+                    if (rel, name) in TRANSLATED:
+                        continue
                     fns = find_fns(toks, name)
                     if not fns:
                         raise Unrecognised(f"{rel}: fn {name} not found")
@@ -1080,6 +1097,10 @@ def main():
     print("translate: regenerated " + (", ".join(changed) if changed else "nothing (tables unchanged)"))
     for u in unrecognised:
         print("translate: UNRECOGNISED " + u)
+    # function bodies: Rust -> Lean definitions (Generated/Fn*.lean), proved equal to the model by Proofs/AgreeFn*.lean
+    import translate_fn
+    if translate_fn.main() != 0:
+        failed = True
     return 1 if failed else 0
 
 
